@@ -11,6 +11,10 @@ import (
 	"github.com/herohde/morlock/pkg/board"
 	"github.com/herohde/morlock/pkg/board/fen"
 	"github.com/herohde/morlock/pkg/engine"
+	"github.com/herohde/morlock/pkg/eval"
+	"github.com/herohde/morlock/pkg/search"
+	"github.com/herohde/morlock/pkg/search/searchctl"
+	"github.com/seekerror/stdlib/pkg/lang"
 	"verif/harness/internal/corpus"
 	"verif/harness/internal/gen"
 	"verif/harness/internal/out"
@@ -292,6 +296,15 @@ func engineAPI(ctx context.Context, r *rand.Rand, w *out.Writer, n, maxOps int) 
 	for i := 0; i < n; i++ {
 		spec := ucih.EngineSpec{Name: []string{"morlock", "turochamp", "sargon", "bernstein"}[r.Intn(4)], Hash: uint(r.Intn(2)), Seed: r.Int63()}
 		e, _ := ucih.Build(ctx, spec)
+		// every other session: an engine around a stub search (instant, never a mate) with a default depth,
+		// and analyses mixed in between the other calls
+		analyses := i%2 == 1
+		def := uint(0)
+		if analyses {
+			spec.Name = "stub"
+			def = uint(r.Intn(4)) // 0 = no default limit
+			e = engine.New(ctx, "stub", "verif", apiStub{}, engine.WithOptions(engine.Options{Depth: def, Hash: spec.Hash}), engine.WithZobrist(spec.Seed))
+		}
 		w.Emit(out.M{"op": "session", "engine": spec.Name, "hash": spec.Hash})
 		emit := func(kind, arg string, bad bool, err error) {
 			w.Emit(out.M{"op": "api", "kind": kind, "arg": arg, "bad": proj.B2I(bad), "err": proj.B2I(err != nil), "state": engineState(e)})
@@ -301,6 +314,19 @@ func engineAPI(ctx context.Context, r *rand.Rand, w *out.Writer, n, maxOps int) 
 		for c := 0; c < k; c++ {
 			b := e.Board()
 			legal, illegal := gen.LegalOf(b)
+			if analyses && r.Intn(3) == 0 {
+				if r.Intn(3) > 0 {
+					apiAnalyze(ctx, r, w, e, def)
+				} else {
+					pv, err := e.Halt(ctx)
+					first := []int{}
+					if len(pv.Moves) > 0 {
+						first = proj.Move(pv.Moves[0])
+					}
+					w.Emit(out.M{"op": "api", "kind": "halt", "arg": "", "bad": 0, "err": proj.B2I(err != nil), "first": first, "state": engineState(e)})
+				}
+				continue
+			}
 			switch x := r.Intn(100); {
 			case x < 10:
 				f := all[r.Intn(len(all))].Fen
@@ -341,5 +367,64 @@ func engineAPI(ctx context.Context, r *rand.Rand, w *out.Writer, n, maxOps int) 
 				emit("move", moveText(m), false, e.Move(ctx, moveText(m)))
 			}
 		}
+		_, _ = e.Halt(ctx) // leave no search running behind
 	}
+}
+
+// apiStub is an instant search: some legal move, an even score, never a mate.
+type apiStub struct{}
+
+func (apiStub) Search(ctx context.Context, sctx *search.Context, b *board.Board, depth int) (uint64, eval.Score, []board.Move, error) {
+	select {
+	case <-ctx.Done():
+		return 0, eval.Score{}, nil, search.ErrHalted
+	case <-time.After(50 * time.Microsecond):
+	}
+	var pv []board.Move
+	if legal, _ := gen.LegalOf(b); len(legal) > 0 {
+		pv = legal[:1]
+	}
+	return 1, eval.HeuristicScore(0), pv, nil
+}
+
+// apiAnalyze calls Engine.Analyze with an explicit limit (0 = explicitly none) or without one, and
+// watches the stream: the depth at which it ends by itself, or that it was still open well past
+// every limit in play (then the search is left running: a later call has to halt it).
+func apiAnalyze(ctx context.Context, r *rand.Rand, w *out.Writer, e *engine.Engine, def uint) {
+	limit := -1
+	opt := searchctl.Options{}
+	if r.Intn(2) == 0 {
+		limit = r.Intn(4)
+		opt.DepthLimit = lang.Some(uint(limit))
+	}
+	ch, err := e.Analyze(ctx, opt)
+	ev := out.M{"op": "api", "kind": "analyze", "arg": "", "bad": 0, "err": proj.B2I(err != nil), "limit": limit, "default": def, "closed": -1, "seen": 0}
+	if err == nil {
+		last, open := 0, true
+		deadline := time.After(30 * time.Second)
+		for open && last < 12 {
+			select {
+			case pv, ok := <-ch:
+				if !ok {
+					open = false
+					ev["closed"] = last
+				} else {
+					last = pv.Depth
+				}
+			case <-deadline:
+				ev["closed"] = -2 // neither ended nor deepening: the machine, not the engine
+				open = false
+			}
+		}
+		ev["seen"] = last
+		if open {
+			// keep draining so that nothing waits for this reader
+			go func() {
+				for range ch {
+				}
+			}()
+		}
+	}
+	ev["state"] = engineState(e)
+	w.Emit(ev)
 }
